@@ -462,4 +462,196 @@ def uvlcMode (initial : Bool) (u0 u1 : Nat) : Nat :=
   (if u0 > 0 then 64 else 0) + (if u1 > 0 then 128 else 0) +
   (if initial ∧ u0 > 2 ∧ u1 > 2 then 64 else 0)
 
+/-! ## HT packet header: empty-band signalling (t2/packet_header_tagtree.go `encodeHTJ2KPacketHeader`) -/
+
+/-- one sub-band's precinct as the header writer sees it: no code-block at all (`len(precinct.CodeBlocks) == 0`:
+    skipped without a bit), code-blocks but none coded in this layer (`!tree.hasCoded`), or coded — then `body` is
+    everything the band writes (inclusion / missing-MSB tree bits, pass counts, lengths of its blocks) -/
+inductive HtBand where
+  | absent
+  | empty
+  | coded (body : List Bool)
+deriving Repr, DecidableEq
+
+/-- `bb` (bits written so far), `coded`, `skippedBands` of `encodeHTJ2KPacketHeader` -/
+structure HtHdrSt where
+  out : List Bool := []
+  coded : Bool := false
+  skippedBands : Nat := 0
+deriving Repr, DecidableEq
+
+/-- one iteration of `for _, precinct := range precincts` -/
+def HtHdrSt.band (st : HtHdrSt) : HtBand → HtHdrSt
+  | .absent => st
+  | .empty =>
+    -- `if coded { bb.writeBit(0) } else { skippedBands++ }`
+    if st.coded then { st with out := st.out ++ [false] } else { st with skippedBands := st.skippedBands + 1 }
+  | .coded body =>
+    -- `if !coded { coded = true; bb.writeBit(1); for range skippedBands { bb.writeBit(0) } }`
+    let st := if st.coded then st
+              else { st with coded := true, out := st.out ++ [true] ++ List.replicate st.skippedBands false }
+    { st with out := st.out ++ body }
+
+/-- `encodeHTJ2KPacketHeader`, bits before `bb.flush()`: `if !coded { bb.writeBit(0) }` -/
+def encodeHtBands (bands : List HtBand) : List Bool :=
+  let st := bands.foldl HtHdrSt.band {}
+  if st.coded then st.out else st.out ++ [false]
+
+/-- the decoder's reading (`parsePacketHeaderMulti`, one layer, fresh tag trees) at band granularity: the packet
+    bit; then for every band that has code-blocks (`present`) the root of its inclusion tag tree — `0` means no
+    block of the band is included (the remaining blocks cost no bits) — else the band's remaining bits, parsed by
+    `parseTail`. Result per band: `none` absent, `some none` nothing included, `some (some x)` parsed. -/
+def decodeHtBandsAux {α : Type} (parseTail : List Bool → Option (α × List Bool)) :
+    List Bool → List Bool → Option (List (Option (Option α)) × List Bool)
+  | [], s => some ([], s)
+  | false :: ps, s => (decodeHtBandsAux parseTail ps s).map (fun r => (none :: r.1, r.2))
+  | true :: _, [] => none
+  | true :: ps, false :: s => (decodeHtBandsAux parseTail ps s).map (fun r => (some none :: r.1, r.2))
+  | true :: ps, true :: s =>
+    match parseTail s with
+    | none => none
+    | some (x, s') => (decodeHtBandsAux parseTail ps s').map (fun r => (some (some x) :: r.1, r.2))
+
+def decodeHtBands {α : Type} (parseTail : List Bool → Option (α × List Bool)) (present : List Bool) :
+    List Bool → Option (List (Option (Option α)) × List Bool)
+  | [] => none
+  | false :: s => some (present.map (fun p => if p then some none else none), s)   -- empty packet
+  | true :: s => decodeHtBandsAux parseTail present s
+
+/-- `bioWriter.flush` without a 0xFF byte in the header: zero padding to a byte boundary -/
+def padToByte (bits : List Bool) : List Bool := bits ++ List.replicate ((8 - bits.length % 8) % 8) false
+
+/-! ## U_q: exponent bound of a quad vs. missing MSBs (cleanup encoder `prepareOJPHSample`, decoder `decodeOJPHScratchMagSgn`) -/
+
+/-- `bits.Len32` -/
+def bitLen (x : Nat) : Nat := if x = 0 then 0 else Nat.log2 x + 1
+
+/-- `val := (t + t) >> p; val &= ^uint32(1)` with `p = 30 - missingMSBs = 31 - kmax` (uint32 arithmetic) -/
+def sampleVal (kmax t : Nat) : Nat := 2 * t % 2 ^ 32 / 2 ^ (31 - kmax) / 2 * 2
+
+/-- `eQ[idx] = bits.Len32(val - 1)` for a significant sample (`val != 0`), 0 otherwise -/
+def sampleEQ (kmax t : Nat) : Nat := if sampleVal kmax t = 0 then 0 else bitLen (sampleVal kmax t - 1)
+
+/-- initial row pair: `uq0 := maxInt(eQMax[0], 1)` -/
+def uqInitial (eQMax : Nat) : Nat := max eQMax 1
+
+/-- later row pairs: `kappa := 1; if rho&(rho-1) != 0 { kappa = maxInt(1, maxE) }; uq := maxInt(eQMax, kappa)` with
+    `maxE = maxInt(eVal[lep], eVal[lep+1]) - 1` (exponents of the row pair above) -/
+def uqLater (eQMax : Nat) (twoOrMore : Bool) (eAbove0 eAbove1 : Nat) : Int :=
+  let maxE : Int := max (eAbove0 : Int) eAbove1 - 1
+  let kappa : Int := if twoOrMore then max 1 maxE else 1
+  max (eQMax : Int) kappa
+
+/-- the decoder's sanity check in both loops of `decodeOJPHScratchMagSgn`: `if uq > mmsbp2 { error }` with
+    `mmsbp2 = missingMSBs + 2` -/
+def uqAccepted (uq : Int) (missingMSBs : Nat) : Bool := !(decide (uq > (missingMSBs : Int) + 2))
+
+/-! ## MagSgn bit packing: writer (`ojphMSWriter`) -/
+
+/-- `ojphMSWriter` (openjph_cleanup_encoder.go): `buf`, `maxBits` (7 after a 0xFF byte), `usedBits`, `tmp` -/
+structure MsWriter where
+  buf : List Nat := []
+  maxBits : Nat := 8
+  usedBits : Nat := 0
+  tmp : Nat := 0
+deriving Repr, DecidableEq
+
+/-- `ojphMSWriter.encode(cwd, cwdLen)`: `for cwdLen > 0 { t := min(maxBits-usedBits, cwdLen); tmp |= (cwd & (1<<t - 1)) << usedBits; … }`
+    (`|` onto clear bits written as `+`); the fuel is the bit count: every turn moves `t ≥ 1` bits while `usedBits < maxBits` -/
+def MsWriter.encodeLoop : Nat → MsWriter → Nat → Nat → MsWriter
+  | 0, m, _, _ => m
+  | f + 1, m, cwd, len =>
+    if len = 0 then m
+    else
+      let t := min (m.maxBits - m.usedBits) len
+      let tmp := m.tmp + cwd % 2 ^ t * 2 ^ m.usedBits
+      let used := m.usedBits + t
+      if used ≥ m.maxBits then
+        let b := tmp % 256
+        MsWriter.encodeLoop f { buf := m.buf ++ [b], maxBits := if b = 255 then 7 else 8, usedBits := 0, tmp := 0 }
+          (cwd / 2 ^ t) (len - t)
+      else MsWriter.encodeLoop f { m with tmp := tmp, usedBits := used } (cwd / 2 ^ t) (len - t)
+
+def MsWriter.encode (m : MsWriter) (cwd len : Nat) : MsWriter := MsWriter.encodeLoop len m cwd len
+
+/-- `ojphMSWriter.terminate()`: fill the open byte with 1s and drop it if that makes 0xFF; drop a trailing 0xFF -/
+def MsWriter.terminate (m : MsWriter) : List Nat :=
+  if m.usedBits ≠ 0 then
+    let t := m.maxBits - m.usedBits
+    let tmp := m.tmp + (2 ^ t - 1) % 256 * 2 ^ m.usedBits
+    if tmp % 256 ≠ 255 then m.buf ++ [tmp % 256] else m.buf
+  else if m.maxBits = 7 ∧ m.buf.length > 0 then m.buf.dropLast
+  else m.buf
+
+
+/-- `ms.encode(cwd, len)` for each pair in order -/
+def MsWriter.encodeAll (m : MsWriter) : List (Nat × Nat) → MsWriter
+  | [] => m
+  | (cwd, len) :: ws => MsWriter.encodeAll (m.encode cwd len) ws
+
+/-! ## MagSgn bit packing: reader (`MagSgnDecoder`, used by `ojphMSReader.fetch`) -/
+
+/-- `MagSgnDecoder` (magsgn.go): `rest` is `data[pos:]` -/
+structure MsReader where
+  rest : List Nat
+  bitBuffer : Nat := 0
+  bitCount : Nat := 0
+  lastByte : Nat := 0
+deriving Repr, DecidableEq
+
+/-- first loop of `readBits`: `for m.bitCount < n && m.pos < len(m.data)` — 7 bits of a byte that follows 0xFF -/
+def MsReader.fill (n : Nat) : List Nat → Nat → Nat → Nat → MsReader
+  | [], buf, cnt, last => { rest := [], bitBuffer := buf, bitCount := cnt, lastByte := last }
+  | b :: rest, buf, cnt, last =>
+    if cnt < n then
+      if last = 255 then MsReader.fill n rest (buf + b % 128 * 2 ^ cnt) (cnt + 7) b
+      else MsReader.fill n rest (buf + b * 2 ^ cnt) (cnt + 8) b
+    else { rest := b :: rest, bitBuffer := buf, bitCount := cnt, lastByte := last }
+
+/-- second loop: `for m.bitCount < n { b := byte(0xFF); … }` (at most `n` turns) -/
+def MsReader.pad : Nat → Nat → MsReader → MsReader
+  | 0, _, r => r
+  | f + 1, n, r =>
+    if r.bitCount < n then
+      if r.lastByte = 255 then
+        MsReader.pad f n { r with bitBuffer := r.bitBuffer + 127 * 2 ^ r.bitCount, bitCount := r.bitCount + 7, lastByte := 255 }
+      else
+        MsReader.pad f n { r with bitBuffer := r.bitBuffer + 255 * 2 ^ r.bitCount, bitCount := r.bitCount + 8, lastByte := 255 }
+    else r
+
+/-- `MagSgnDecoder.readBits(n)`: (value, ok, new state); uint64 `bitBuffer` never overflows for n ≤ 32 -/
+def MsReader.readBits (r : MsReader) (n : Nat) : Nat × Bool × MsReader :=
+  if n = 0 then (0, true, r)
+  else
+    let r1 := MsReader.fill n r.rest r.bitBuffer r.bitCount r.lastByte
+    let ok := decide (¬ r1.bitCount < n)
+    let r2 := if r1.bitCount < n then MsReader.pad n n r1 else r1
+    (r2.bitBuffer % 2 ^ n, ok, { r2 with bitBuffer := r2.bitBuffer / 2 ^ n, bitCount := r2.bitCount - n })
+
+/-- `ms.fetch(n)` for each n in order -/
+def MsReader.readAll : MsReader → List Nat → List Nat
+  | _, [] => []
+  | r, n :: ns => let x := r.readBits n; x.1 :: MsReader.readAll x.2.2 ns
+
+
+/-! ## MEL/VLC termination and fusion byte (`terminateOJPHMELVLC`), Scup -/
+
+/-- `terminateOJPHMELVLC(mel, vlc)` (openjph_cleanup_encoder.go): the MEL packer after `if mel.run > 0 { mel.emitBit(1) }`
+    is `pk`; the VLC writer holds `vlcTmp` with `vlcUsed` valid low bits and the bytes `vlcBuf` (in writing order,
+    `vlcBuf[0] = 0xFF` is the byte that will carry Scup). Returns (MEL bytes, VLC bytes in writing order). -/
+def terminateMelVlc (pk : MelPacker) (vlcBuf : List Nat) (vlcTmp vlcUsed : Nat) : List Nat × List Nat :=
+  let melTmp := pk.tmp * 2 ^ pk.remainingBits          -- `mel.tmp <<= mel.remainingBits` (int, not masked)
+  let melMask := 0xFF * 2 ^ pk.remainingBits % 256      -- `(0xFF << mel.remainingBits) & 0xFF`
+  let vlcMask := if vlcUsed > 0 then 0xFF / 2 ^ (8 - vlcUsed) else 0
+  if melMask ||| vlcMask = 0 then (pk.buf, vlcBuf)
+  else
+    let fuse := melTmp ||| vlcTmp
+    if (((fuse ^^^ melTmp) &&& melMask) ||| ((fuse ^^^ vlcTmp) &&& vlcMask)) = 0 ∧ fuse ≠ 0xFF ∧ vlcBuf.length > 1 then
+      (pk.buf ++ [fuse % 256], vlcBuf)                  -- one shared byte, counted with the MEL bytes
+    else (pk.buf ++ [melTmp % 256], vlcBuf ++ [vlcTmp % 256])
+
+/-- `Scup = len(melData) + len(vlcData)` -/
+def scupOf (r : List Nat × List Nat) : Nat := r.1.length + r.2.length
+
+
 end Htj2k
